@@ -6,6 +6,7 @@ CONSTANTS
   Cols <- ColsAll
   ClassKinds <- KindsTabQ
   ClassX <- XTabQ
+  ClassXS <- XSTabQ
   ClassT <- TTabQ
   ClassM <- MTabQ
   LowerOf <- LowerTab
